@@ -17,6 +17,18 @@
 From InvokeVerif Require Import Model.SessionModel Spec.C19Spec Corr.C19Corr Spec.C17Spec
      Proofs.C17_path Proofs.C19_session.
 
+(** ---- Model sanity lemmas ------------------------------------------------
+    The next five statements ([C19_called_as_only_direct],
+    [C19_default_call_unnamed], [C19_reload_replaces_collection_keeps_edits],
+    [C19_env_reload_keeps_edits], and further down
+    [C19_env_reload_forgets_old_env]) are "full" only in the sense that they
+    have no guard: they are structural facts that hold by construction of
+    SessionModel / ConfigModel.  They document what the model does (and are
+    used by the session theorem); they say something about invoke only through
+    the correspondence runs.  The property-level content is in
+    [C19_session_views_partial], the refutations and the bounded sweep.
+    ------------------------------------------------------------------------- *)
+
 (** Only the requested task itself is called by the requested name; its pre-
     and post-tasks, at any depth, are calls without a name ... *)
 Theorem C19_called_as_only_direct : forall c n t n',
